@@ -38,6 +38,11 @@ func (e *Engine) lookupIntrinsic(fn *ssa.Function) intrinsic {
 			return h
 		}
 	}
+	if strings.Contains(name, "[") {
+		if h, ok := intrinsics[stripTypeArgs(name)]; ok {
+			return h
+		}
+	}
 	pk := ""
 	if fn.Pkg != nil {
 		pk = fn.Pkg.Pkg.Path()
@@ -311,6 +316,19 @@ func init() {
 		"math/bits.Len16": bitsLen(16),
 		"math/bits.Len8":  bitsLen(8),
 		"unique.Make": uniqueMake,
+		"sort.Slice":  sortSlice,
+		"sort.SliceStable": sortSlice,
+		"github.com/puzpuzpuz/xsync/v3.NewMapOf":                xsyncNew,
+		"(*github.com/puzpuzpuz/xsync/v3.MapOf).LoadOrCompute": xsyncLoadOrCompute,
+		"(*github.com/puzpuzpuz/xsync/v3.MapOf).Load":          xsyncLoad,
+		"(*github.com/puzpuzpuz/xsync/v3.MapOf).Delete":        xsyncDelete,
+		"(*github.com/puzpuzpuz/xsync/v3.MapOf).Size":          xsyncSize,
+		"(*golang.org/x/time/rate.Limiter).AllowN": func(e *Engine, s *State, f *Frame, fn *ssa.Function, args []Value, retIdx int, advance bool) (Value, bool) {
+			// token-bucket arithmetic (float64, wall clock) is outside the encoding: any verdict
+			k := "rate:" + ptrKey(args[0].(*Pointer))
+			s.ghost[k]++
+			return e.ndScalar(s, "@rate.allow", 0), true
+		},
 		"hash/maphash.MakeSeed": noopIntrinsic,
 		"hash/maphash.Bytes":    maphashBytes,
 		"hash/maphash.String":   maphashBytes,
@@ -621,4 +639,97 @@ func maphashBytes(e *Engine, s *State, f *Frame, fn *ssa.Function, args []Value,
 		packed = c.BvOr(packed, c.Shl(c.Zext(b, 64), c.BV(8*i, 64)))
 	}
 	return c.UF("@maphash", 64, sl.Len, packed), true
+}
+
+func sortSlice(e *Engine, s *State, f *Frame, fn *ssa.Function, args []Value, retIdx int, advance bool) (Value, bool) {
+	iv := args[0].(*IfaceV)
+	sl := iv.V.(*SliceV)
+	less := args[1].(*FuncV)
+	n := sl.Len
+	rt := e.prog.ImportedPackage("github.com/IrineSistiana/mosproxy/internal/verifrt")
+	if rt == nil || rt.Func("SortSliceModel") == nil {
+		e.errf("verifrt.SortSliceModel missing")
+	}
+	swap := &FuncV{Builtin: "@swap", Bindings: []Value{sl}}
+	e.pushCall(s, f, &FuncV{Fn: rt.Func("SortSliceModel")}, []Value{n, less, swap}, -1, advance)
+	return tailCall, true
+}
+
+// xsync.MapOf model: the receiver object holds an engine map (association list, lookups fork on key equality).
+func xsyncNew(e *Engine, s *State, f *Frame, fn *ssa.Function, args []Value, retIdx int, advance bool) (Value, bool) {
+	o := e.newObj(s, &MapObj{}, nil, "xsync.MapOf@"+e.curPos(s))
+	return &Pointer{Obj: o.ID}, true
+}
+
+func xsyncLookup(e *Engine, s *State, p *Pointer, k Value) (Value, bool) {
+	if p.IsNil() {
+		e.fail(s, "panic", "nil xsync.MapOf")
+	}
+	mo := s.obj(p.Obj).Val.(*MapObj)
+	for _, en := range mo.Entries {
+		if e.cond(s, e.valueEq(s, en.K, k)) {
+			return en.V, true
+		}
+	}
+	return nil, false
+}
+
+func xsyncLoadOrCompute(e *Engine, s *State, f *Frame, fn *ssa.Function, args []Value, retIdx int, advance bool) (Value, bool) {
+	p := args[0].(*Pointer)
+	if f.contPhase == 1 && f.contIP == f.ip {
+		v := f.scratch
+		f.contPhase, f.scratch = 0, nil
+		mo := s.obj(p.Obj).Val.(*MapObj)
+		s.wobj(p.Obj).Val = &MapObj{Entries: append(append([]MapEntry(nil), mo.Entries...), MapEntry{args[1], v})}
+		return TupleV{v, e.c.False}, true
+	}
+	if v, ok := xsyncLookup(e, s, p, args[1]); ok {
+		return TupleV{v, e.c.True}, true
+	}
+	f.contPhase, f.contIP = 1, f.ip
+	e.pushCall(s, f, args[2].(*FuncV), nil, -2, false)
+	return tailCall, true
+}
+
+func xsyncLoad(e *Engine, s *State, f *Frame, fn *ssa.Function, args []Value, retIdx int, advance bool) (Value, bool) {
+	if v, ok := xsyncLookup(e, s, args[0].(*Pointer), args[1]); ok {
+		return TupleV{v, e.c.True}, true
+	}
+	return TupleV{e.zero(fn.Signature.Results().At(0).Type()), e.c.False}, true
+}
+
+func xsyncDelete(e *Engine, s *State, f *Frame, fn *ssa.Function, args []Value, retIdx int, advance bool) (Value, bool) {
+	p := args[0].(*Pointer)
+	mo := s.obj(p.Obj).Val.(*MapObj)
+	for i, en := range mo.Entries {
+		if e.cond(s, e.valueEq(s, en.K, args[1])) {
+			ne := append(append([]MapEntry(nil), mo.Entries[:i]...), mo.Entries[i+1:]...)
+			s.wobj(p.Obj).Val = &MapObj{Entries: ne}
+			break
+		}
+	}
+	return nil, true
+}
+
+func xsyncSize(e *Engine, s *State, f *Frame, fn *ssa.Function, args []Value, retIdx int, advance bool) (Value, bool) {
+	mo := s.obj(args[0].(*Pointer).Obj).Val.(*MapObj)
+	return e.c.BV(uint64(len(mo.Entries)), 64), true
+}
+
+func stripTypeArgs(s string) string {
+	var sb strings.Builder
+	d := 0
+	for _, r := range s {
+		switch r {
+		case '[':
+			d++
+		case ']':
+			d--
+		default:
+			if d == 0 {
+				sb.WriteRune(r)
+			}
+		}
+	}
+	return sb.String()
 }
